@@ -1,8 +1,8 @@
 (* C05 — amount verification rejects every tampered or unbalanced transaction.
    LEVEL: proof IN THE IDEAL-COMMITMENT MODEL (Model/Ideal.v) — partial with respect to cryptography, exactly as C04: the
    soundness and binding of range and surjection proofs is built into the ideal objects, not derived from libsecp256k1-zkp.
-   What is proved is the logic of Transaction::verify_tx_amt_proofs (src/blind.rs) — its checks, their order, the balance
-   equation and what it implies. Only statements; proofs live in Proofs/Verify.v and Proofs/Tamper.v. *)
+   What is proved is the logic of Transaction::verify_tx_amt_proofs (src/blind.rs, with repair b3b2d40) — its checks, their order,
+   the balance equation and what it implies. Only statements; proofs live in Proofs/Verify.v and Proofs/Tamper.v. *)
 From Coq Require Import List NArith ZArith Bool Lia.
 From Coq.Strings Require Import Byte.
 From EV Require Import Base.Bytes Base.Zn Base.FreeMod Model.Script Model.Ideal Model.Verify Model.Blind Model.Tamper
@@ -10,9 +10,10 @@ From EV Require Import Base.Bytes Base.Zn Base.FreeMod Model.Script Model.Ideal 
 Import ListNotations.
 Open Scope Z_scope.
 
-(* acceptance => the outputs have openings (asset, amount < 2^64) that balance per asset AS INTEGERS against the opened inputs
-   and explicit issuances, and every confidential output carries a range proof and a surjection proof made for exactly that
-   output (commitment, script, generator / generator, domain). The two size hypotheses (#entries * 2^64 < n) are what
+(* acceptance => the outputs have openings (asset, amount < 2^64; a skipped output — explicit zero amount on a provably unspendable
+   script — is opened by zero) that balance per asset AS INTEGERS against the opened inputs and explicit issuances, and every
+   confidential output carries a range proof and a surjection proof made for exactly that output (commitment, script,
+   generator / generator, domain). The two size hypotheses (#entries * 2^64 < n) are what
    turns the balance modulo the group order into an integer balance. *)
 Theorem C05_sound : forall (T : tx) (spent : list txout) (ss : list secrets),
   verify_tx_amt_proofs T spent = OVal tt -> opens (t_in T) spent ss ->
@@ -20,10 +21,10 @@ Theorem C05_sound : forall (T : tx) (spent : list txout) (ss : list secrets),
   Z.of_nat (length ss) * 2 ^ 64 < qn -> Z.of_nat (length (t_out T)) * 2 ^ 64 < qn ->
   exists dom coms ocoms os,
     verify_inputs (t_in T) spent 0 = OVal (dom, coms) /\ verify_outputs dom (t_out T) 0 = OVal ocoms
-    /\ Forall2 (fun oc s => out_opened (fst oc) (snd oc) s) (combine (t_out T) ocoms) os /\ length os = length (t_out T)
+    /\ Forall2 (fun oc s => out_opened_step (fst oc) (snd oc) s) (combine (t_out T) ocoms) os /\ length os = length (t_out T)
     /\ Forall (fun s => u64 (s_value s)) os
     /\ (forall b, asset_total b ss = asset_total b os)
-    /\ Forall (proofs_for dom) (t_out T).
+    /\ Forall (fun o => skipped o = false -> proofs_for dom o) (t_out T).
 Proof. exact verify_sound. Qed.
 
 (* from an accepted transaction whose spent outputs are opened, EVERY tamper of the property's list (Model/Tamper.v), at
@@ -35,52 +36,50 @@ Theorem C05_tamper : forall (T : tx) (spent : list txout) (ss : list secrets) (t
   verify_tx_amt_proofs (fst (apply t (T, spent))) (snd (apply t (T, spent))) <> OVal tt.
 Proof. exact tamper_rejected. Qed.
 
-(* an all-explicit transaction is accepted exactly when the spent list has the right length, NO output amount is zero, and
-   every asset balances as integers — this is what the code does (finding F13: zero amounts are rejected even on provably
-   unspendable scripts) ... *)
-Theorem C05_explicit_iff_model : forall (T : tx) (spent : list txout),
-  all_explicit T spent ->
-  Z.of_nat (length (input_secrets (t_in T) spent)) * 2 ^ 64 < qn -> Z.of_nat (length (t_out T)) * 2 ^ 64 < qn ->
-  (verify_tx_amt_proofs T spent = OVal tt <->
-   length spent = length (t_in T) /\ Forall (fun o => o_value o <> VExp 0) (t_out T)
-   /\ forall b, asset_total b (input_secrets (t_in T) spent) = explicit_out_total b (t_out T)).
-Proof. exact explicit_iff_model. Qed.
-(* ... and the property's characterisation (zero amounts admissible only on provably unspendable scripts), which holds
-   outside the F13 class *)
+(* an all-explicit transaction is accepted exactly when the spent list has the right length, zero amounts occur only on provably
+   unspendable scripts, and every asset balances as integers — the property's own characterisation (repair b3b2d40 of finding
+   F13: `Err(TxOutError::ZeroValueCommitment) => continue` in the output loop) *)
 Theorem C05_explicit_iff : forall (T : tx) (spent : list txout),
-  all_explicit T spent -> known_F13 T = false ->
+  all_explicit T spent ->
   Z.of_nat (length (input_secrets (t_in T) spent)) * 2 ^ 64 < qn -> Z.of_nat (length (t_out T)) * 2 ^ 64 < qn ->
   (verify_tx_amt_proofs T spent = OVal tt <->
    length spent = length (t_in T) /\ zero_value_rule T
    /\ forall b, asset_total b (input_secrets (t_in T) spent) = explicit_out_total b (t_out T)).
 Proof. exact explicit_iff. Qed.
+(* what the repaired loop does with an explicit zero amount, exactly: on a provably unspendable script (OP_RETURN, over-long, or the
+   empty fee script) the output is SKIPPED — nothing is pushed and nothing on it (asset, proofs) is looked at; on a SPENDABLE script
+   it is still REJECTED, because get_value_commit answers NonUnspendableZeroValue for it, which is reported (as SpentTxOutError).
+   The unspendable-script rule is thus enforced inside get_value_commit, not by the loop. *)
+Theorem C05_zero_value_unspendable_skipped : forall dom k o,
+  o_value o = VExp 0 -> is_provably_unspendable (o_script o) = true -> verify_output_step dom k o = OVal None.
+Proof. intros dom k o V U. unfold verify_output_step. now rewrite (zero_value_unspendable_skipped o V U). Qed.
+Theorem C05_zero_value_spendable_rejected : forall dom k o,
+  o_value o = VExp 0 -> is_provably_unspendable (o_script o) = false ->
+  verify_output_step dom k o = OFail (SpentTxOutError k NonUnspendableZeroValue).
+Proof. exact zero_value_spendable_rejected. Qed.
 
 Theorem C05_len_mismatch : forall T spent, length spent <> length (t_in T) -> verify_tx_amt_proofs T spent = OFail UtxoInputLenMismatch.
 Proof. exact verify_len_mismatch. Qed.
 
-(* finding F13: a balanced all-explicit transaction with a zero-amount OP_RETURN output satisfies the property's right-hand
-   side and is rejected (ZeroValueCommitment is propagated — as SpentTxOutError — instead of the output being skipped) *)
+(* the former F13 witness — a balanced all-explicit transaction with a zero-amount OP_RETURN output — is now accepted;
+   the same transaction with the zero amount on a spendable script is rejected *)
 Definition f13_tx : tx :=
   mkTx [mkIn null_issuance]
        [mkOut (AExp 1) (VExp 99) NNull (p2wpkh x01) None None;
         mkOut (AExp 1) (VExp 0) NNull [x6a; x01; xaa] None None;
         mkOut (AExp 1) (VExp 1) NNull [] None None].
 Definition f13_spent : list txout := [mkOut (AExp 1) (VExp 100) NNull [x51] None None].
-Theorem C05_zero_opreturn_refuted : exists T spent,
-  all_explicit T spent /\ length spent = length (t_in T) /\ zero_value_rule T
-  /\ (forall b, asset_total b (input_secrets (t_in T) spent) = explicit_out_total b (t_out T))
-  /\ known_F13 T = true
-  /\ verify_tx_amt_proofs T spent = OFail (SpentTxOutError 1 ZeroValueCommitment).
+Example C05_zero_opreturn_accepted :
+  all_explicit f13_tx f13_spent /\ zero_value_rule f13_tx /\ verify_tx_amt_proofs f13_tx f13_spent = OVal tt
+  /\ verify_tx_amt_proofs (mkTx (t_in f13_tx) (upd (t_out f13_tx) 1 (set_script (p2wpkh x07)))) f13_spent
+     = OFail (SpentTxOutError 1 NonUnspendableZeroValue).
 Proof.
-  exists f13_tx, f13_spent. split; [|split; [|split; [|split; [|split]]]].
+  split; [|split; [|split]].
   - split; [|split].
     + repeat constructor. exists 1%N, 100. repeat split; reflexivity.
     + repeat constructor; left; reflexivity.
     + repeat constructor; eexists _, _; (split; [reflexivity|]); (split; [reflexivity|]); split; try reflexivity; discriminate.
-  - reflexivity.
   - repeat constructor; intro H; try discriminate H; vm_compute; reflexivity.
-  - intro b. unfold explicit_out_total, asset_total. cbn [f13_tx f13_spent t_in t_out input_secrets iss_secrets map explicit_secret o_asset o_value app isum fold_right s_asset s_value].
-    destruct (N.eqb b 1); reflexivity.
   - vm_compute. reflexivity.
   - vm_compute. reflexivity.
 Qed.
@@ -115,8 +114,8 @@ Proof. vm_compute. repeat split; reflexivity. Qed.
 (* and a balanced all-explicit transaction that is accepted *)
 Example C05_example_explicit :
   let T := mkTx [mkIn null_issuance] [mkOut (AExp 1) (VExp 99) NNull (p2wpkh x01) None None; mkOut (AExp 1) (VExp 1) NNull [] None None] in
-  verify_tx_amt_proofs T f13_spent = OVal tt /\ known_F13 T = false.
-Proof. vm_compute. split; reflexivity. Qed.
+  verify_tx_amt_proofs T f13_spent = OVal tt.
+Proof. vm_compute. reflexivity. Qed.
 
 Check (C05_sound : forall (T : tx) (spent : list txout) (ss : list secrets),
   verify_tx_amt_proofs T spent = OVal tt -> opens (t_in T) spent ss ->
@@ -124,17 +123,17 @@ Check (C05_sound : forall (T : tx) (spent : list txout) (ss : list secrets),
   Z.of_nat (length ss) * 2 ^ 64 < qn -> Z.of_nat (length (t_out T)) * 2 ^ 64 < qn ->
   exists dom coms ocoms os,
     verify_inputs (t_in T) spent 0 = OVal (dom, coms) /\ verify_outputs dom (t_out T) 0 = OVal ocoms
-    /\ Forall2 (fun oc s => out_opened (fst oc) (snd oc) s) (combine (t_out T) ocoms) os /\ length os = length (t_out T)
+    /\ Forall2 (fun oc s => out_opened_step (fst oc) (snd oc) s) (combine (t_out T) ocoms) os /\ length os = length (t_out T)
     /\ Forall (fun s => u64 (s_value s)) os
     /\ (forall b, asset_total b ss = asset_total b os)
-    /\ Forall (proofs_for dom) (t_out T)).
+    /\ Forall (fun o => skipped o = false -> proofs_for dom o) (t_out T)).
 Check (C05_tamper : forall (T : tx) (spent : list txout) (ss : list secrets) (t : tamper),
   verify_tx_amt_proofs T spent = OVal tt -> opens (t_in T) spent ss ->
   Forall (fun o => forall v, o_value o = VExp v -> 0 <= v < qn) (t_out T) ->
   applicable t (T, spent) = true -> changes t (T, spent) = true ->
   verify_tx_amt_proofs (fst (apply t (T, spent))) (snd (apply t (T, spent))) <> OVal tt).
 Check (C05_explicit_iff : forall (T : tx) (spent : list txout),
-  all_explicit T spent -> known_F13 T = false ->
+  all_explicit T spent ->
   Z.of_nat (length (input_secrets (t_in T) spent)) * 2 ^ 64 < qn -> Z.of_nat (length (t_out T)) * 2 ^ 64 < qn ->
   (verify_tx_amt_proofs T spent = OVal tt <->
    length spent = length (t_in T) /\ zero_value_rule T
@@ -142,7 +141,7 @@ Check (C05_explicit_iff : forall (T : tx) (spent : list txout),
 Check (C05_len_mismatch : forall T spent, length spent <> length (t_in T) -> verify_tx_amt_proofs T spent = OFail UtxoInputLenMismatch).
 Print Assumptions C05_sound.
 Print Assumptions C05_tamper.
-Print Assumptions C05_explicit_iff_model.
 Print Assumptions C05_explicit_iff.
 Print Assumptions C05_len_mismatch.
-Print Assumptions C05_zero_opreturn_refuted.
+Print Assumptions C05_zero_value_unspendable_skipped.
+Print Assumptions C05_zero_value_spendable_rejected.
